@@ -157,7 +157,7 @@ theorem C19_upload_part_all_or_nothing (c : Cfg) (old : Option Bytes) (m i : Sid
 
 /-- **All-or-nothing for `complete_multipart_upload`** — content, metadata, upload record and part files —, at every
     fault position (the program for `n ≥ 1` listed parts: `n` probes, the size rule, `create`, `n` parts, `mkdirs`, `rename`,
-    then the side files, the part files, the upload record; without a part list or with an empty one, a00e4e8, the program is
+    then the side files, the part files, the upload record; without a part list or with an empty one, 0fcb858, the program is
     the refusal alone — `MalformedXML` — and nothing ever changes): no temporary file; the destination holds the previous content or —
     only if every part exists and passes
     the size rule — the parts concatenated in order; up to the last step before the rename (`k ≤ 2n + 3`) it holds the
@@ -172,7 +172,7 @@ theorem C19_complete_all_or_nothing (c : Cfg) (old : Option Bytes) (m i : Side) 
       ((s.mdata ≠ m ∨ s.info ≠ i ∨ s.uploadRec = false ∨ s.partsGone ≠ 0) →
         ∃ all, allParts c.parts = some all ∧ s.dest = some all) := by
   by_cases hne : c.parts = []
-  · -- no part list, or an empty one: refused (a00e4e8), nothing has happened
+  · -- no part list, or an empty one: refused (0fcb858), nothing has happened
     simp only [dropAfter_eq, completeProg_nil c hne, (refusal_changes_nothing (initSt old m i) rfl).2 k]
     simp [initSt]
   simp only [dropAfter_eq, completeProg_eq c hne]
@@ -202,7 +202,7 @@ theorem C19_complete_all_or_nothing (c : Cfg) (old : Option Bytes) (m i : Side) 
           · exact .inr (.inr (.inr (by simpa [initSt] using hne))))
         simpa [initSt] using this
 
-/-- **A failed `complete_multipart_upload` changes nothing.** If the part list is missing or empty (`MalformedXML`, a00e4e8;
+/-- **A failed `complete_multipart_upload` changes nothing.** If the part list is missing or empty (`MalformedXML`, 0fcb858;
     before, an empty list produced an empty object), a listed part was never uploaded (`InvalidPart`), a part
     other than the last is below the minimum size (`EntityTooSmall`), or `done()` fails at either of its two steps, the
     call answers an error and destination, metadata, checksum record, upload record and part files are exactly as
